@@ -20,7 +20,7 @@ fn img(guid: &str, kind: usize, mask: bool, n: usize, id: u64) -> Image {
     i
 }
 
-pub const N_SCENES: usize = 11;
+pub const N_SCENES: usize = 12;
 
 pub fn scene(k: usize) -> Scene {
     match k {
@@ -154,6 +154,16 @@ pub fn scene(k: usize) -> Scene {
                 pt[3] = Val::Int((1 << 57) - i as i64);
             }
             s.clouds.push(c);
+            s
+        }
+        11 => {
+            // tiny bit-packed clouds: every stream ends in a partly used byte whose spare bits could
+            // hold one or more further values (1 point of 4+4+4+2 bits; 3 points of 3+3+3+1+2 bits)
+            let mut s = base("s11");
+            let b = |n: &str, max: i64| rec(n, Ty::Int { min: 0, max });
+            s.clouds.push(cloud("c0", vec![b("cartesianX", 15), b("cartesianY", 15), b("cartesianZ", 15), b("cartesianInvalidState", 2)], 1, 21));
+            let sc = |n: &str| rec(n, Ty::Scaled { min: -3, max: 4, scale: 0.5, offset: 1.0 });
+            s.clouds.push(cloud("c1", vec![sc("cartesianX"), sc("cartesianY"), sc("cartesianZ"), b("isIntensityInvalid", 1), rec("intensity", Ty::Int { min: 0, max: 3 })], 3, 22));
             s
         }
         _ => {
